@@ -188,6 +188,17 @@ def also_reloaded(line):
     return zlib.crc32(line.encode()) % 3 == 0
 
 
+def also_by_value(line):
+    """every fourth case (chosen by content) is also run with the direction given BY VALUE -- the plain strings 'Up' / 'Dw' / 'Bi' that a
+    descriptor reloaded from JSON carries and that equal the members of the str enumeration DirectionIndicator: same result required"""
+    import zlib
+    return zlib.crc32(line.encode()) % 4 == 1
+
+
+def plain(d):
+    return str.__str__(d.value) if d is not None else None
+
+
 def case_compress(batch, pd, rule, d, klass='compress', extra=None):
     npd, nr = n_pdesc(pd), n_rule(rule)
     yline = ' '.join(['Y', 'bcompress'] + raw_pdesc_tokens(pd) + raw_rule_tokens(rule) + [dopt(d)])      # operands as they are BEFORE the call
@@ -206,6 +217,10 @@ def case_compress(batch, pd, rule, d, klass='compress', extra=None):
             out2 = obs_bits(with_timeout(lambda: compress(pd, r2, direction=d) if d is not None else compress(pd, r2)))
             if out2 != out:
                 fails.append('compress with the rule reloaded from its JSON form gives %s, with the original objects %s' % (str(out2)[:120], str(out)[:120]))
+    if d is not None and also_by_value(line):
+        out3 = obs_bits(with_timeout(lambda: compress(pd, rule, direction=plain(d))))
+        if out3 != out:
+            fails.append('compress with the direction given as the string %r gives %s, with the enumeration member %s' % (plain(d), str(out3)[:120], str(out)[:120]))
     desc = dict(layer='schc', op='compress', pdesc=npd, rule=nr, direction=dopt(d))
     if extra:
         desc.update(extra)
@@ -235,6 +250,10 @@ def case_decompress(batch, sbits, rule, d, klass='decompress', expect=None, side
             out2 = obs_bits(with_timeout(lambda: decompress(mk(sbits, side), r2, direction=d) if d is not None else decompress(mk(sbits, side), r2)))
             if out2 != out:
                 fails.append('decompress with the rule reloaded from its JSON form gives %s, with the original objects %s' % (str(out2)[:120], str(out)[:120]))
+    if d is not None and also_by_value(line):
+        out3 = obs_bits(with_timeout(lambda: decompress(mk(sbits, side), rule, direction=plain(d))))
+        if out3 != out:
+            fails.append('decompress with the direction given as the string %r gives %s, with the enumeration member %s' % (plain(d), str(out3)[:120], str(out)[:120]))
     desc = dict(layer='schc', op='decompress', schc=sbits, rule=nr, direction=dopt(d), side='L' if side == L else 'R', expect=expect, total=total)
     if extra:
         desc.update(extra)
@@ -293,6 +312,20 @@ def case_match(batch, pd, rules, klass='match', extra=None, ruler=None):
                 exc2 = type(e).__name__
             if (tuple(got2), exc2) != (out[1], out[2]):
                 fails.append('with the rules reloaded from their JSON form the matcher yields %s %s, with the original objects %s %s' % (got2, exc2, out[1], out[2]))
+    if also_by_value(line):
+        # the packet descriptor carries its direction as the plain string (as PacketDescriptor.from_json leaves it, or as a caller passes it)
+        keep = pd.direction
+        got3, exc3 = [], None
+        try:
+            pd.direction = plain(DI(keep))
+            for r in Ruler(rules).match_packet_descriptor(pd):
+                got3.append([i for i, x in enumerate(rules) if x is r][0])
+        except Exception as e:  # noqa: BLE001
+            exc3 = type(e).__name__
+        finally:
+            pd.direction = keep
+        if (tuple(got3), exc3) != (out[1], out[2]):
+            fails.append('with the direction of the packet given as the string %r the matcher yields %s %s, with the enumeration member %s %s' % (plain(DI(keep)), got3, exc3, out[1], out[2]))
     desc = dict(layer='schc', op='match', pdesc=npd, rules=nrs)
     if extra:
         desc.update(extra)
